@@ -145,6 +145,9 @@ extern int cs_vector_on_cal;
 /* cs_make_params first creates this many unrelated scalar parameters (and
    leaves them), so that the scenario's handles start at 3 + cs_param_fillers:
    0 by default */
+/* where not 0: cs_build sets both convergence tolerances of the iterative
+   solver to this */
+extern double cs_solve_tolerance;
 extern int cs_param_fillers;
 /* scalar standards of the recipes are purely real (a 75 ohm load, an
    attenuator): set before cs_recipe */
